@@ -82,3 +82,20 @@ Proof.
   - exact (src_bit_targets T HT).
 Qed.
 Print Assumptions C15_source_is_the_model.
+
+(* equality (friend operator== / != as clang types them) compares the underlying values, hence is
+   consistent with the choice getters *)
+Theorem C15_source_equality_consistent : forall T a b,
+  is_set_type T = true -> in_range T a = true -> in_range T b = true ->
+  (effs_eval [("lhs.bits", a); ("rhs.bits", b)] (src_set_eq T) = Some [1] <->
+   forall n, 0 <= n < CInt.bits T ->
+     effs_eval [("bits", a); ("n", n)] (src_get_bit T) = effs_eval [("bits", b); ("n", n)] (src_get_bit T)).
+Proof. exact src_set_equality_consistent. Qed.
+Print Assumptions C15_source_equality_consistent.
+
+Theorem C15_source_equality_is_value_equality : forall T a b,
+  is_set_type T = true -> in_range T a = true -> in_range T b = true ->
+  effs_eval [("lhs.bits", a); ("rhs.bits", b)] (src_set_eq T) = Some [zb (a =? b)%Z] /\
+  effs_eval [("lhs.bits", a); ("rhs.bits", b)] (src_set_ne T) = Some [zb (negb (a =? b)%Z)].
+Proof. exact src_set_eq_is_value_eq. Qed.
+Print Assumptions C15_source_equality_is_value_equality.
